@@ -2,6 +2,12 @@
  * C15: reference zstd coder for the tool-level checks, straight on libzstd (no code of /repo involved).
  *   c15_zstd_ref c [level]   compress stdin into one frame without content checksum (what libzstd does by default)
  *   c15_zstd_ref cc [level]  compress stdin into one frame with content checksum (what the zstd tool does)
+ *   c15_zstd_ref cs [level [windowlog]]  the same through the streaming interface without announcing the size: the frame header
+ *                            then carries a window descriptor (the window the level asks for, e.g. 2^27 at level 22), as in `zstd < pipe`
+ *   (all three: an optional third argument sets the window log, e.g. `cs 19 27`)
+ *   c15_zstd_ref d1          the same, but the input is offered one byte at a time: libzstd then never takes its one-pass shortcut
+ *                            (whole frame + enough room), whose checks are stricter than those of the streaming path in some
+ *                            versions (1.5.4: a Frame_Content_Size larger than the content is only noticed by the shortcut)
  *   c15_zstd_ref d           strictly expand stdin: any number of complete frames, nothing else; exit 1 = damaged,
  *                            exit 2 = ends inside a frame
  */
@@ -33,19 +39,41 @@ int main(int argc, char **argv)
 		unsigned char *o = malloc(cap ? cap : 1);
 		ZSTD_CCtx *c = ZSTD_createCCtx();
 		if (strcmp(argv[1], "cc") == 0) ZSTD_CCtx_setParameter(c, ZSTD_c_checksumFlag, 1);
-		if (argc > 2) ZSTD_CCtx_setParameter(c, ZSTD_c_compressionLevel, atoi(argv[2]));
+		if (argc > 2 && ZSTD_isError(ZSTD_CCtx_setParameter(c, ZSTD_c_compressionLevel, atoi(argv[2])))) return 4;
+		if (argc > 3 && ZSTD_isError(ZSTD_CCtx_setParameter(c, ZSTD_c_windowLog, atoi(argv[3])))) return 4;
+		if (strcmp(argv[1], "cs") == 0) {
+			ZSTD_inBuffer ib = { in, n, 0 };
+			size_t left;
+			ZSTD_CCtx_setParameter(c, ZSTD_c_checksumFlag, 1);
+			/* first everything with `continue` (so that the size is not known when the header is written), then `end` */
+			while (ib.pos < ib.size) {
+				ZSTD_outBuffer ob = { o, cap ? cap : 1, 0 };
+				left = ZSTD_compressStream2(c, &ob, &ib, ZSTD_e_continue);
+				if (ZSTD_isError(left)) return 1;
+				fwrite(o, 1, ob.pos, stdout);
+			}
+			do {
+				ZSTD_outBuffer ob = { o, cap ? cap : 1, 0 };
+				left = ZSTD_compressStream2(c, &ob, &ib, ZSTD_e_end);
+				if (ZSTD_isError(left)) return 1;
+				fwrite(o, 1, ob.pos, stdout);
+			} while (left != 0);
+			return 0;
+		}
 		r = ZSTD_compress2(c, o, cap, in, n);
 		if (ZSTD_isError(r)) return 1;
 		fwrite(o, 1, r, stdout);
 		return 0;
 	} else {
 		ZSTD_DStream *d = ZSTD_createDStream();
-		ZSTD_inBuffer ib = { in, n, 0 };
+		int bytewise = strcmp(argv[1], "d1") == 0;
+		ZSTD_inBuffer ib = { in, bytewise ? (n ? 1 : 0) : n, 0 };
 		static unsigned char ob[1 << 16];
 		size_t last = 0;
-		while (ib.pos < ib.size || last != 0) {
+		while (ib.pos < n || last != 0) {
 			ZSTD_outBuffer o = { ob, sizeof ob, 0 };
 			size_t p = ib.pos;
+			if (bytewise) ib.size = ib.pos < n ? ib.pos + 1 : n;
 			r = ZSTD_decompressStream(d, &o, &ib);
 			if (ZSTD_isError(r)) { fprintf(stderr, "zstd: %s\n", ZSTD_getErrorName(r)); return 1; }
 			fwrite(ob, 1, o.pos, stdout);
